@@ -104,8 +104,13 @@ def registry(prog, an, rep):
                 if isinstance(call.func, ast.Name) and \
                         call.func.id == tname:
                     rep.evaluated()
-                    names = [src(a) for a in call.args]
-                    ok = len(names) == len(want) and all(
+                    # positional arguments fill the fields in order,
+                    # keyword arguments name their field
+                    kws = {k.arg: src(k.value) for k in call.keywords}
+                    names = [src(a) for a in call.args] + [
+                        kws.get(w, '?') for w in want[len(call.args):]]
+                    ok = set(kws) <= set(want[len(call.args):]) and \
+                        len(names) == len(want) and all(
                         n.strip('_') == w or (w == 'handler' and n in (
                             'func', 'set_option', 'handler')) or
                         (w == 'help' and n.strip('_') == 'help')
